@@ -420,6 +420,7 @@ def rule_shapes(facts):
 
 def run(ctx, t0):
     facts = ctx.facts()
+    pat.FACTS = facts
     from rules import rcterms
     rules = [rule_header(facts), rule_automaton(facts), rule_contexts(facts), rule_window(facts), rule_shapes(facts),
              rcterms.rule_rangedecoder(facts)]
